@@ -23,5 +23,6 @@ def python_evaluate(s: str) -> int:
         raise
     except SyntaxError as ex:
         raise NotAnIntegerException(s, ex.msg)
-    except Exception as ex:
+    except (Exception, SystemExit) as ex:
+        # SystemExit: the expression calls exit() or quit()
         raise NotAnIntegerException(s, str(ex))
